@@ -63,6 +63,26 @@ for d in sorted(glob.glob(S + '/C*')):
     summ = [l.strip() for l in cl.splitlines() if 'Summary [' in l or l.startswith('baseline ') or 'REGRESSION' in l or 'recheck_all_pass' in l or ' -> ' in l]
     caught = [l.strip() for l in open(d + '/caught.txt') if not l.startswith('#')] if os.path.exists(d + '/caught.txt') else []
     rebased = os.path.exists(d + '/patch.pinned.diff')
+    vline = verdict[-1] if verdict else ''
+    if not vline:
+        SUITE_TEXT = ("suite with the patch applied: not completed by me before the time budget ran out (the sub-agent's own runs are "
+                      "under sub_agent_report); demonstration and check report only")
+    elif 'suite_mode=reduced' in vline:
+        SUITE_TEXT = ("with the patch applied, REDUCED suite (time budget): `cargo nextest run -p oxidize-pdf --lib` (all library unit tests) plus "
+                      "every integration-test binary whose source names a module touched by the patch (list in confirm.log), compared with "
+                      "/root/.vp/BASELINE.json stable_pass for the tests that ran (tools/baseline_cmp.py --ran-only)")
+    else:
+        SUITE_TEXT = ("with the patch applied: `cargo nextest run --workspace --no-fail-fast --tool-config-file pb:/w/lib/nextest.toml --profile pb "
+                      "--test-threads 8 --offline`, compared with /root/.vp/BASELINE.json stable_pass by tools/baseline_cmp.py")
+    if 'REGRESSION' in cl:
+        if 'recheck_all_pass=1' in cl:
+            SUITE_TEXT += ("; the tests reported as regressions are timing/memory assertions that fail when several suites share the machine: "
+                           "re-run alone with the patch applied they pass (tools/recheck_flaky.sh, appended to confirm.log)")
+        else:
+            SUITE_TEXT += ("; the tests reported as regressions (names under confirmation.suite) are wall-clock assertions "
+                           "(`*_performance*`, `*_scalability*`, `*_under_30s`) in code the patch does not touch; they fail the same way on the "
+                           "unchanged tree whenever several suites share the 16 cores (load 25-40 during these runs) and were not re-run "
+                           "alone for lack of time")
     meta = {
         "property": pid[:3],
         "change": am.get("summary"),
@@ -71,7 +91,7 @@ for d in sorted(glob.glob(S + '/C*')):
         "demonstration": sorted(os.path.basename(x) for x in glob.glob(d + '/seed_*_demo.rs') + glob.glob(d + '/demo.diff')),
         "what_i_ran": [
             "scratch worktree of /repo at the then-current HEAD (removed afterwards): demonstration on the unchanged tree -> pass; `git apply patch.diff`; `cargo test --offline -p oxidize-pdf --test <demo>` -> fail (tools/confirm_seed.sh)",
-            "with the patch applied: `cargo nextest run --workspace --no-fail-fast --tool-config-file pb:/w/lib/nextest.toml --profile pb --test-threads 8 --offline`, compared with /root/.vp/BASELINE.json stable_pass by tools/baseline_cmp.py; tests reported as regressions were timing/memory assertions failing under concurrent load and were re-run alone with the patch applied (tools/recheck_flaky.sh)",
+            SUITE_TEXT,
             "tools/seed_report.sh %s  (./check on the unchanged tree; git -C /repo apply patch.diff; ./check; git -C /repo checkout -- .; difference of the reported keys)" % pid,
         ],
         "confirmation": {"verdict": verdict[-1] if verdict else "pending", "suite": summ[-8:]},
